@@ -169,18 +169,19 @@ type hypo interface {
 }
 
 type evaluator struct {
-	c        *Ctx
-	h        hypo
-	decls    map[*types.Func]*ast.FuncDecl
-	infos    map[*types.Func]*types.Info
-	stack    []*types.Func
-	steps    int
-	budget   int
-	notes    map[string]bool                                     // constructs outside the subset that were met
-	watch    map[string]bool                                     // callee names to record as events
-	watchLit string                                              // a string constant whose evaluation is recorded as an event
-	stmtHook func(s ast.Stmt, st state, info *types.Info) *event // optional: record an event for a statement
-	readsIn  map[ast.Node]bool
+	c          *Ctx
+	h          hypo
+	decls      map[*types.Func]*ast.FuncDecl
+	infos      map[*types.Func]*types.Info
+	stack      []*types.Func
+	steps      int
+	budget     int
+	notes      map[string]bool                                     // constructs outside the subset that were met
+	watch      map[string]bool                                     // callee names to record as events
+	watchSlice bool                                                // a string cut at a bound that folds to a constant is recorded as an event slice-high:<n>
+	watchLit   string                                              // a string constant whose evaluation is recorded as an event
+	stmtHook   func(s ast.Stmt, st state, info *types.Info) *event // optional: record an event for a statement
+	readsIn    map[ast.Node]bool
 }
 
 func newEvaluator(c *Ctx, h hypo) *evaluator {
@@ -358,8 +359,24 @@ func (ev *evaluator) evalExpr(e ast.Expr, st state, info *types.Info) []eres {
 				}
 			}
 		}
+		if ev.watchSlice && e.High != nil {
+			if hs := ev.evalExpr(e.High, st, info); len(hs) == 1 && hs[0].v.k == avConst && hs[0].v.c.Kind() == constant.Int {
+				st.tr = &trace{ev: event{name: "slice-high:" + hs[0].v.c.ExactString(), pos: e.Pos()}, prev: st.tr}
+			}
+		}
 		return ev.evalOperandsUnknown(e, st, info)
-	case *ast.CompositeLit, *ast.IndexExpr, *ast.StarExpr, *ast.TypeAssertExpr, *ast.KeyValueExpr:
+	case *ast.IndexExpr:
+		// a read-only package-level table indexed by a constant: the entry, or the zero value
+		if rs, ok := ev.tableLookup(e, st, info); ok {
+			for i := range rs {
+				if rs[i].v.k == avStruct {
+					rs[i].v = rs[i].v.fields["#0"]
+				}
+			}
+			return rs
+		}
+		return ev.evalOperandsUnknown(e, st, info)
+	case *ast.CompositeLit, *ast.StarExpr, *ast.TypeAssertExpr, *ast.KeyValueExpr:
 		// value unknown, but nested calls may diverge: evaluate operands in order.
 		return ev.evalOperandsUnknown(e, st, info)
 	}
@@ -736,4 +753,149 @@ func stdCall(full string, args []aval) aval {
 		}
 	}
 	return unknown
+}
+
+// zeroConst: the zero value of a basic type as a constant (unknown otherwise).
+func zeroConst(t types.Type) aval {
+	if b, ok := t.Underlying().(*types.Basic); ok {
+		switch {
+		case b.Info()&types.IsString != 0:
+			return constVal(constant.MakeString(""))
+		case b.Info()&types.IsBoolean != 0:
+			return boolVal(false)
+		case b.Info()&types.IsInteger != 0:
+			return constVal(constant.MakeInt64(0))
+		case b.Info()&types.IsFloat != 0:
+			return constVal(constant.MakeFloat64(0))
+		}
+	}
+	return unknown
+}
+
+// constTable: x names a package-level map variable that is initialised by a composite literal with constant
+// keys and that no statement of the module stores into or reassigns. Returns key (exact string) -> value
+// (constant, or unknown for a non-constant element) and the element type.
+func (c *Ctx) constTable(x ast.Expr, info *types.Info) (map[string]aval, types.Type, bool) {
+	var id *ast.Ident
+	switch f := ast.Unparen(x).(type) {
+	case *ast.Ident:
+		id = f
+	case *ast.SelectorExpr:
+		id = f.Sel
+	default:
+		return nil, nil, false
+	}
+	v, ok := info.Uses[id].(*types.Var)
+	if !ok || v.IsField() || v.Pkg() == nil || v.Parent() != v.Pkg().Scope() {
+		return nil, nil, false
+	}
+	mt, ok := v.Type().Underlying().(*types.Map)
+	if !ok {
+		return nil, nil, false
+	}
+	if c.constTables == nil {
+		c.constTables = map[*types.Var]*constTableInfo{}
+	}
+	if ti, done := c.constTables[v]; done {
+		if ti == nil {
+			return nil, nil, false
+		}
+		return ti.m, mt.Elem(), true
+	}
+	c.constTables[v] = nil
+	var lit *ast.CompositeLit
+	var litInfo *types.Info
+	written := false
+	for _, p := range c.Pkgs {
+		for _, f := range p.Syntax {
+			ast.Inspect(f, func(n ast.Node) bool {
+				switch n := n.(type) {
+				case *ast.ValueSpec:
+					for i, nm := range n.Names {
+						if p.TypesInfo.Defs[nm] == v && i < len(n.Values) {
+							if cl, ok := ast.Unparen(n.Values[i]).(*ast.CompositeLit); ok {
+								lit, litInfo = cl, p.TypesInfo
+							}
+						}
+					}
+				case *ast.AssignStmt:
+					for _, l := range n.Lhs {
+						base := ast.Unparen(l)
+						if ix, ok := base.(*ast.IndexExpr); ok {
+							base = ast.Unparen(ix.X)
+						}
+						var bid *ast.Ident
+						switch b := base.(type) {
+						case *ast.Ident:
+							bid = b
+						case *ast.SelectorExpr:
+							bid = b.Sel
+						}
+						if bid != nil && p.TypesInfo.Uses[bid] == v {
+							written = true
+						}
+					}
+				case *ast.CallExpr:
+					if fid, ok := n.Fun.(*ast.Ident); ok && fid.Name == "delete" && len(n.Args) > 0 {
+						var bid *ast.Ident
+						switch b := ast.Unparen(n.Args[0]).(type) {
+						case *ast.Ident:
+							bid = b
+						case *ast.SelectorExpr:
+							bid = b.Sel
+						}
+						if bid != nil && p.TypesInfo.Uses[bid] == v {
+							written = true
+						}
+					}
+				}
+				return true
+			})
+		}
+	}
+	if lit == nil || written {
+		return nil, nil, false
+	}
+	m := map[string]aval{}
+	for _, el := range lit.Elts {
+		kv, ok := el.(*ast.KeyValueExpr)
+		if !ok {
+			return nil, nil, false
+		}
+		ktv, ok := litInfo.Types[kv.Key]
+		if !ok || ktv.Value == nil {
+			return nil, nil, false
+		}
+		val := unknown
+		if vtv, ok := litInfo.Types[kv.Value]; ok && vtv.Value != nil {
+			val = constVal(vtv.Value)
+		}
+		m[ktv.Value.ExactString()] = val
+	}
+	c.constTables[v] = &constTableInfo{m: m}
+	return m, mt.Elem(), true
+}
+
+type constTableInfo struct{ m map[string]aval }
+
+// tableLookup: e indexes a constant table (constTable); each result is the pair (#0 entry or zero value,
+// #1 found), or unknown when the index is not a constant.
+func (ev *evaluator) tableLookup(e *ast.IndexExpr, st state, info *types.Info) ([]eres, bool) {
+	tbl, elem, ok := ev.c.constTable(e.X, info)
+	if !ok {
+		return nil, false
+	}
+	var out []eres
+	for _, r := range ev.evalExpr(e.Index, st, info) {
+		if r.v.k != avConst {
+			out = append(out, eres{v: unknown, st: r.st})
+			continue
+		}
+		v, found := tbl[r.v.c.ExactString()]
+		if !found {
+			v = zeroConst(elem)
+		}
+		out = append(out, eres{v: aval{k: avStruct, fields: map[string]aval{"#0": v, "#1": boolVal(found)}}, st: r.st})
+	}
+	return out, true
 }
